@@ -44,6 +44,10 @@ type SendScenario struct {
 	// CancelMidContent: the caller's context (DialAndSendWithContext) is cancelled while the
 	// content of a message is being produced, after the dial has long succeeded.
 	CancelMidContent bool `json:"cancelMidContent,omitempty"`
+	// SlowProducerMs: the first writer-backed content of the send pauses for that long (virtual
+	// time) half-way through — a producer that waits for its own source, well inside the
+	// client's timeout.
+	SlowProducerMs int `json:"slowProducerMs,omitempty"`
 	// DialBlocks: the dial function itself blocks until its context is done.
 	DialBlocks bool `json:"dialBlocks,omitempty"`
 	// CtxMs: when > 0 the caller's context carries a deadline of its own, CtxMs from the start
@@ -96,11 +100,12 @@ type MsgState struct {
 
 // SendRun is everything observable about one executed SendScenario.
 type SendRun struct {
-	Sc     *SendScenario
-	Env    *NetEnv
-	Res    RunResult
-	Built  [][]*Built
-	States [][]MsgState
+	SlowProducerFired bool
+	Sc                *SendScenario
+	Env               *NetEnv
+	Res               RunResult
+	Built             [][]*Built
+	States            [][]MsgState
 	// Calls by name in order; Target is the judged call of each batch (or the single op).
 	// Switched / SwitchOffsets: see switchPolicy
 	Switched      bool
@@ -242,6 +247,13 @@ func execSendHook(t *testing.T, sc *SendScenario, logger mlog.Logger, hook func(
 					}
 					b.ResetCounters()
 				}
+			}
+			if sc.SlowProducerMs > 0 && !sc.CancelMidContent {
+				MidContentHook = func() {
+					run.SlowProducerFired = true
+					env.K.Sleep(time.Duration(sc.SlowProducerMs) * time.Millisecond)
+				}
+				defer func() { MidContentHook = nil }()
 			}
 			msgsOf := func(bs []*Built) []*mail.Msg {
 				var ms []*mail.Msg
